@@ -14,7 +14,7 @@ text `l <= e` is itself an expression: the LALR parser reads the whole text as o
   from (fail closed) and regenerates the terminals of their literals (`QueryTables.smcLits`), which `printS` uses by role.
 * `parseS`: the productions `PropertyExpr: T_PROBA SMCBounds '(' PathType Expression ')'`, `.. '(' Expression 'U' Expression ')'`,
   `'E' SMCBounds '(' Id ':' Expression ')'`, `T_SIMULATE SMCBounds '{' NonEmptyExpressionList '}'`, `SMCBounds`, `BoundType`, `PathType`.
-Outside: `Pr[..](..) >= p`, comparisons of two probabilities, `simulate .. : n : e`, minE/maxE, strategies.
+`Pr[..](..) >= p`, comparisons of two probabilities and `simulate .. : n : e` are in Model/QuerySmc2.lean.  Outside: minE/maxE, strategies.
 Core Lean only.
 -/
 import UtapModel.Model.Query
